@@ -393,7 +393,7 @@ def _expand_match_element(
                 new_elements.append(
                     Assignment(
                         key=return_var_name,
-                        expression=f"${element_ref['elements'][0]['elements'][0]}.arguments.return_value",
+                        expression=f"${element_ref['elements'][0]['elements'][0]}.arguments.get('return_value')",
                     )
                 )
         else:
